@@ -455,10 +455,26 @@ fn cli_in(input: &Value, bin: &str, dir: &PathBuf) -> R {
 
     let start = Instant::now();
     let mut child = cmd.spawn().map_err(|e| format!("spawn {bin}: {e}"))?;
+    // "stdin_chunks": sizes of the pieces in which standard input is delivered (with a pause after each, so that
+    // the reader sees short reads); the rest follows in one piece.  The bytes are the same.
+    let chunks = input
+        .get("stdin_chunks")
+        .and_then(Value::as_array)
+        .map(|a| a.iter().filter_map(Value::as_u64).map(|x| x as usize).collect::<Vec<_>>())
+        .unwrap_or_default();
     let writer = stdin.map(|data| {
         let mut pipe = child.stdin.take().unwrap();
         thread::spawn(move || {
-            let _ = pipe.write_all(&data);
+            let mut pos = 0;
+            for n in chunks {
+                let end = (pos + n).min(data.len());
+                if pipe.write_all(&data[pos..end]).and_then(|_| pipe.flush()).is_err() {
+                    return;
+                }
+                pos = end;
+                thread::sleep(Duration::from_millis(60));
+            }
+            let _ = pipe.write_all(&data[pos..]);
         })
     });
     let mut so = child.stdout.take().unwrap();
